@@ -396,7 +396,10 @@ def solve (L : NLits α) (S : Setup α) (ode jac : Nat → α → Array α → A
     let solE := LUF.solve n e1 ip1 rhsE
     cont := (Array.range (n * 4)).map fun k => if k < n then g solE k else g cont k
     cnt := { cnt with lu := cnt.lu + 1 }
-    let mut err := errGuard L (rmsNorm L n solE scal)
+    -- `state_finite`: the new state y + z3 has no non-finite component (`c − c` is NaN exactly for those)
+    let yv := y; let zv3 := z3
+    let stateFinite : Bool := (List.range n).all fun i => !(Num.isNaN ((g yv i + g zv3 i) - (g yv i + g zv3 i)))
+    let mut err := if stateFinite then errGuard L (rmsNorm L n solE scal) else L.inf
     if err ≥ L.one ∧ (first ∨ reject) then
       let cy : Array α := (Array.range n).map fun i => g solE i + g y i
       log := log.push (.ode nOde x cy)
@@ -407,7 +410,7 @@ def solve (L : NLits α) (S : Setup α) (ode jac : Nat → α → Array α → A
       let rhs2 : Array α := (Array.range n).map fun i => g fr i + g ef2 i
       let sol2 := LUF.solve n e1 ip1 rhs2
       cont := (Array.range (n * 4)).map fun k => if k < n then g sol2 k else g cont k
-      err := errGuard L (rmsNorm L n sol2 scal)
+      err := if stateFinite then errGuard L (rmsNorm L n sol2 scal) else L.inf
     -- computation of hnew
     let fac := Num.fmin S.safety (cfac / (Num.ofNat newt + L.two * Num.ofNat S.maxNewton))
     let mut quot := Num.fmax facr (Num.fmin facl (Num.pow err L.quarter / fac))
